@@ -98,12 +98,12 @@ PROPS = {
             "Following (following, all_following; fuel = node count adequate), ReversePreorder (both variants), preceding, descendants, "
             "NodeEdge::next/previous walks = traverse/reverse_traverse with continuation, level_order = levels with End markers (fuel adequate), "
             "children/first_child/last_child, following_/preceding_siblings and sibling axes for every category, next_/previous_sibling, child_index, "
-            "axis() for all 12 values, root, document_element, top_element (panic boundary exact), attribute_nodes; plain variants yield normal nodes only; "
-            "all_* variants = node, namespaces, attributes, children; reverse_children: partial (<= 1 raw child) + contract version + proved negation"
+            "reverse_children (= children reversed, fuel adequate), axis() for all 12 values, root, document_element, top_element (total: never panics; value in each case), attribute_nodes; "
+            "plain variants yield normal nodes only; all_* variants = node, namespaces, attributes, children"
         ),
         "not_proved": (
             "indextree's iterators (children, ancestors, descendants, traverse, reverse_traverse, following_/preceding_siblings) are modelled by contract, "
-            "not verified, except Children::next_back whose shipped (defective) code is modelled; traverse/all_traverse are therefore specifications "
+            "not verified (reverse_children no longer relies on Children::next_back, whose indextree 4.7.2 code is defective: fixed in 7fee193); traverse/all_traverse are therefore specifications "
             "(tied to the machines by C07_edges_* and C07_traverse_starts), not verified code; theorems needing the structural hypotheses `wf` "
             "(non-normal nodes are leaves, no normal child before a non-normal one) / `kidsSorted` (ns, attr, normal) say nothing about ill-ordered trees "
             "(C04 is to show the API cannot build them); behaviour at invalid paths (stale handles) is not covered"
